@@ -167,9 +167,9 @@ Lemma alias_value g imp (ss : list filt) :
   V g (any_cfg imp (map (@to_u comp) ss)) = of_viol (Ok (realised imp (map (fun S => (S, others_of ceqb g imp S ss)) ss))).
 Proof.
   intros Hwf Hex Hpw Hne.
-  unfold AlgebraProofs.V, verdict. rewrite alias_anything, (drop_children_unrelated ss Hpw).
-    change (snd (assert_applies ceqb rmatch g (mk_ucfg ShouldNot imp true (map (@to_u comp) ss) (map (@to_u comp) ss))))
-      with (V g (mk_ucfg ShouldNot imp true (map (@to_u comp) ss) (map (@to_u comp) ss))).
+  unfold AlgebraProofs.V. rewrite alias_anything, (drop_children_unrelated ss Hpw).
+  change (verdict ceqb rmatch g (mk_ucfg ShouldNot imp true (map (@to_u comp) ss) (map (@to_u comp) ss)))
+    with (V g (mk_ucfg ShouldNot imp true (map (@to_u comp) ss) (map (@to_u comp) ss))).
     rewrite verdict_unfold by (destruct ss; simpl; congruence).
     rewrite !(convert_plain rmatch g). rewrite viol_should_not_exc. unfold other_query, importers_of, importees_of.
     destruct imp; [rewrite (other_out_alias g ss Hwf Hex Hpw)|rewrite (other_in_alias g ss Hwf Hex Hpw)]; reflexivity.
